@@ -1,8 +1,10 @@
 package mon
 
 import (
+	"context"
 	"encoding/base64"
 	"fmt"
+	"net/http"
 	"net/url"
 	"strings"
 	"sync/atomic"
@@ -363,6 +365,7 @@ func C10(c *run.Ctx) {
 	}
 	c.Sample(map[string]interface{}{"registrations": len(regs), "transports": len(trs), "secret_relations": rels, "endpoints": endpoints})
 	c10UsedAssertions(c)
+	c10CustomStrategy(c)
 	c10RetiredSecrets(c)
 }
 
@@ -586,6 +589,90 @@ func c10UsedAssertions(c *run.Ctx) {
 				c.Violate(run.Violation{Kind: "rejected-request-changed-state", Key: "rejected-request-changed-state used-client-assertion revoked a token", Detail: "the token named in the replayed revocation requests is no longer active", History: hist})
 			}
 		}
+	}
+}
+
+// c10CustomStrategy: the operator configures a client authentication strategy of its own (here: fosite's default one plus
+// "this client's secret has expired", RFC 7591 client_secret_expires_at). Every client-authenticated endpoint asks THAT
+// strategy: a client it refuses is refused everywhere, and nothing is issued or invalidated in its name.
+func c10CustomStrategy(c *run.Ctx) {
+	if !c.Mine(5) && c.NShards > 5 {
+		return
+	}
+	w := world.New(world.Opts{})
+	p, ok := w.P.(*fosite.Fosite)
+	if !ok {
+		c.Inconcl("custom client authentication strategy: the composed provider is not a *fosite.Fosite")
+		return
+	}
+	w.Cfg.ClientAuthenticationStrategy = func(ctx context.Context, r *http.Request, form url.Values) (fosite.Client, error) {
+		cl, err := p.DefaultClientAuthenticationStrategy(ctx, r, form)
+		if err == nil && cl.GetID() == "conf-a" {
+			return nil, fosite.ErrInvalidClient.WithHint("The client secret has expired.")
+		}
+		return cl, err
+	}
+	good := world.Basic("conf-b", "secret-of-b")
+	victim := w.Token(url.Values{"grant_type": {"client_credentials"}, "scope": {"fosite"}}, good).S("access_token")
+	if victim == "" {
+		c.Inconcl("custom client authentication strategy: no token for the control client")
+		return
+	}
+	// a token of conf-a from before its secret expired
+	w.Cfg.ClientAuthenticationStrategy = nil
+	own := w.Token(url.Values{"grant_type": {"client_credentials"}, "scope": {"fosite"}}, world.Basic("conf-a", "secret-of-a")).S("access_token")
+	w.Cfg.ClientAuthenticationStrategy = func(ctx context.Context, r *http.Request, form url.Values) (fosite.Client, error) {
+		cl, err := p.DefaultClientAuthenticationStrategy(ctx, r, form)
+		if err == nil && cl.GetID() == "conf-a" {
+			return nil, fosite.ErrInvalidClient.WithHint("The client secret has expired.")
+		}
+		return cl, err
+	}
+	for _, who := range []struct {
+		id, secret string
+		refused    bool
+	}{{"conf-a", "secret-of-a", true}, {"conf-b", "secret-of-b", false}} {
+		au := world.Basic(who.id, who.secret)
+		tok := map[string]string{"conf-a": own, "conf-b": victim}[who.id]
+		// the four endpoints the statement names (the introspection endpoint authenticates its callers in its own way, C09)
+		for _, ep := range []string{"token", "par", "device", "revoke"} {
+			before := w.Store.Digest()
+			var out *world.Out
+			switch ep {
+			case "token":
+				out = w.Token(url.Values{"grant_type": {"client_credentials"}, "scope": {"fosite"}}, au)
+			case "par":
+				out = w.PAR(url.Values{"response_type": {"code"}, "scope": {"fosite"}, "state": {"state-0123456789"}, "redirect_uri": {w.Specs[who.id].RedirectURIs[0]}}, au)
+			case "device":
+				out = w.Device(url.Values{"scope": {"fosite"}, "client_id": {who.id}}, au)
+			case "introspect":
+				out = w.IntrospectHTTP(url.Values{"token": {tok}}, au, "")
+			case "revoke":
+				out = w.Revoke(url.Values{"token": {tok}}, au)
+			}
+			processed := out.Err == nil
+			c.Case(fmt.Sprintf("custom-strategy client=%s endpoint=%s refused-by-strategy=%v processed=%v err=%s", who.id, ep, who.refused, processed, out.ErrName))
+			c.Count("c10_custom_strategy_probes", 1)
+			hist := []string{"Config.ClientAuthenticationStrategy = default strategy, but conf-a is refused (secret expired)", fmt.Sprintf("%s at %s => %s (HTTP %d)", who.id, ep, world.ErrDetail(out.Err), out.Status)}
+			if who.refused {
+				c.Count("c10_rejected", 1)
+				c10Wire(c, ep, "refused-by-configured-strategy", out, hist)
+				if processed {
+					c.Violate(run.Violation{Kind: "unauthenticated-request-processed", Key: "unauthenticated-request-processed refused-by-configured-strategy endpoint=" + ep,
+						Detail: "the endpoint processed a request of a client the configured client authentication strategy refuses", History: hist})
+				}
+				if d := world.DigestDiff(before, w.Store.Digest()); len(d) > 0 {
+					c.Violate(run.Violation{Kind: "rejected-request-changed-state", Key: "rejected-request-changed-state endpoint=" + ep + " (refused-by-configured-strategy)", Detail: fmt.Sprint(d), History: hist})
+				}
+			} else if !processed {
+				c.Count("c10_custom_strategy_control_refused:"+ep+":"+out.ErrName, 1)
+			} else {
+				c.Count("c10_processed", 1)
+			}
+		}
+	}
+	if own != "" && !w.IntrospectAPI(own, fosite.AccessToken).Active {
+		c.Violate(run.Violation{Kind: "rejected-request-changed-state", Key: "rejected-request-changed-state refused-by-configured-strategy revoked a token", Detail: "the token named in the refused revocation request is no longer active"})
 	}
 }
 
